@@ -1420,6 +1420,12 @@ impl Path {
     ) -> Option<Rect> {
         let mut stroke = stroke?.to_tiny_skia();
         // According to the spec, dash should not be accounted during bbox calculation.
+        // But the corners of a square cap at the end of a dash on a curved segment are up to
+        // `width / 2 * sqrt(2)` away from the path, i.e. outside of the solid stroke,
+        // and they must not be cropped by a layer. So make the stroke wide enough to include them.
+        if stroke.dash.is_some() && stroke.line_cap == tiny_skia_path::LineCap::Square {
+            stroke.width *= std::f32::consts::SQRT_2;
+        }
         stroke.dash = None;
 
         // TODO: avoid for round and bevel caps
